@@ -2,6 +2,7 @@
 // Shape I: exhaustive enumeration of byte strings / integer values; every (pointer,size)
 // API gets exactly-sized heap copies (ASan redzones are the memory oracle).
 // References: RFC 4648 base16 (upper case), base64 and base64url encoders written here.
+#include "guard.hpp"
 #include "mc.hpp"
 #include <algorithm>
 #include <cstdint>
@@ -212,6 +213,44 @@ template <class T> static string ref_fixed(T v)
         s += HEXU[(v >> (4 * i)) & 15];
     return s;
 }
+// A fixed-width decoder reads EXACTLY its 2*sizeof(T) characters: (1) from a field that ends flush against an
+// inaccessible page (non-terminated, one byte of over-read faults), (2) whatever stands directly behind the
+// field in a longer buffer — more hex digits, NUL, separators, arbitrary bytes — must not change the result.
+template <class T, class F> static void check_field(const char *name, const string &text, T v, F decode)
+{
+    size_t w = text.size();
+    static guard::Region page(16);
+    char *fld = (char *)page.p + 16 - w; // [fld, fld+w) ends at the guard page
+    memcpy(fld, text.data(), w);
+    T got = 0;
+    mc::crash_context("C18.%s.memory", name);
+    bool ok = mc::guarded([&] { got = decode((const char *)fld); });
+    if (!ok)
+        mc::violation(mc::fmt("C18.%s.reads_past_field", name), "field '%s' flush against an inaccessible page: the decoder read beyond its %zu characters",
+                      text.c_str(), w);
+    else if (got != v)
+        mc::violation(mc::fmt("C18.%s.roundtrip", name), "field '%s' (non-terminated) decoded to %llx", text.c_str(), (unsigned long long)got);
+    static const char *const tails[] = {"0", "F", "a", "12345678", "FFFFFFFFFFFFFFFFF", " ", "\n", ",", "G", "x1", "\xff\x80", "-1"};
+    for (const char *tl : tails)
+    {
+        string buf = text + tl;
+        Exact e(buf.size() + 1, buf.c_str()); // text + tail + NUL, exactly sized
+        T g = decode((const char *)e.p);
+        if (g != v)
+            mc::violation(mc::fmt("C18.%s.depends_on_bytes_behind_field", name), "field '%s' followed by '%s' decoded to %llx, want %llx", text.c_str(),
+                          mc::hex(tl, strlen(tl)).c_str(), (unsigned long long)g, (unsigned long long)v);
+    }
+    {
+        string buf = text;
+        Exact e(buf.size() + 1, buf.c_str()); // followed by NUL only
+        e.p[buf.size()] = 0;
+        T g = decode((const char *)e.p);
+        if (g != v)
+            mc::violation(mc::fmt("C18.%s.roundtrip", name), "field '%s' followed by NUL decoded to %llx", text.c_str(), (unsigned long long)g);
+    }
+    mc::crash_context("C18.harness");
+}
+
 static void check_u8(uint8_t v)
 {
     Exact t(2);
@@ -224,6 +263,7 @@ static void check_u8(uint8_t v)
     uint8_t b = hex_to_uint8((const char *)t.p);
     if (b != v)
         mc::violation("C18.hex_to_uint8.roundtrip", "v=%02x text %s back %02x", v, got.c_str(), b);
+    check_field<uint8_t>("hex_to_uint8", ref_fixed<uint8_t>(v), v, [](const char *h) { return hex_to_uint8(h); });
     // nibble helpers
     if (half2hex(v >> 4) != HEXU[v >> 4] || hex2half(HEXU[v & 15]) != (v & 15) || hex2byte(HEXU[v >> 4], HEXU[v & 15]) != v)
         mc::violation("C18.half_helpers.value", "v=%02x half2hex=%c hex2half=%d hex2byte=%02x", v, half2hex(v >> 4), hex2half(HEXU[v & 15]),
@@ -241,6 +281,7 @@ static void check_u16(uint16_t v)
     uint16_t b = hex_to_uint16((const char *)t.p);
     if (b != v)
         mc::violation("C18.hex_to_uint16.roundtrip", "v=%04x text %s back %04x", v, got.c_str(), b);
+    check_field<uint16_t>("hex_to_uint16", ref_fixed<uint16_t>(v), v, [](const char *h) { return hex_to_uint16(h); });
 }
 static void check_u32(uint32_t v)
 {
@@ -254,6 +295,7 @@ static void check_u32(uint32_t v)
     uint32_t b = hex_to_uint32((const char *)t.p);
     if (b != v)
         mc::violation("C18.hex_to_uint32.roundtrip", "v=%08x text %s back %08x", v, got.c_str(), b);
+    check_field<uint32_t>("hex_to_uint32", ref_fixed<uint32_t>(v), v, [](const char *h) { return hex_to_uint32(h); });
 }
 static void check_u64(uint64_t v)
 {
@@ -267,6 +309,7 @@ static void check_u64(uint64_t v)
     uint64_t b = hex_to_uint64((const char *)t.p);
     if (b != v)
         mc::violation("C18.hex_to_uint64.roundtrip", "v=%016llx text %s back %016llx", (unsigned long long)v, got.c_str(), (unsigned long long)b);
+    check_field<uint64_t>("hex_to_uint64", ref_fixed<uint64_t>(v), v, [](const char *h) { return hex_to_uint64(h); });
 }
 
 // structured complete families for a W-bit type (W = 32 or 64):
